@@ -85,11 +85,18 @@ def _one(surface: str, field: str, v) -> str:
                 acl = dev.acl
             elif surface == "loader-fw":
                 from primaite.simulator.network.hardware.nodes.network.firewall import Firewall
-                dev = Firewall.from_config({"type": "firewall", "hostname": "f_parse", "acl": {"dmz_inbound_acl": {0: entry}}})
+                six = {a: {} for a in ("internal_inbound_acl", "internal_outbound_acl", "dmz_inbound_acl", "dmz_outbound_acl",
+                                       "external_inbound_acl", "external_outbound_acl")}
+                six["dmz_inbound_acl"] = {0: entry}
+                dev = Firewall.from_config({"type": "firewall", "hostname": "f_parse", "acl": six})
                 acl = dev.dmz_inbound_acl
             else:
                 from primaite.simulator.network.hardware.nodes.network.wireless_router import WirelessRouter
-                dev = WirelessRouter.from_config({"type": "wireless-router", "hostname": "w_parse", "acl": {0: entry}})
+                from primaite.simulator.network.container import Network
+                dev = WirelessRouter.from_config({"type": "wireless-router", "hostname": "w_parse", "acl": {0: entry},
+                                                  "router_interface": {"ip_address": "10.0.1.1", "subnet_mask": "255.255.255.0"},
+                                                  "wireless_access_point": {"ip_address": "10.0.2.1", "subnet_mask": "255.255.255.0",
+                                                                            "frequency": "WIFI_2_4"}}, airspace=Network().airspace)
                 acl = dev.acl
         else:
             acl = AccessControlList(sys_log=SysLog("verif"), implicit_action=ACLAction.DENY, name="verif")
